@@ -219,7 +219,109 @@ def sentinel_wrong_side(op, l, r, pol):
     return (op == "Eq" and pol) or (op == "Ne" and not pol)
 
 
+def _alts(e):
+    e = strip_casts(e)
+    if e[0] == "phi" and len(e) > 3:
+        out = []
+        for a in e[3]: out += _alts(a)
+        return out
+    return [e]
+
+
+_OFF_MEMO = {}
+def len_offset(fx, e, depth=0):
+    """`e` == D + k with D a wrapping difference of two positions (a queue length sample) and k a constant: returns k, following the value through NonZero wrappers,
+    checked / wrapping +-const and -- interprocedurally -- through the answers (Option / tuple components) of the crate functions that produced it.  None when `e`
+    is not of that shape.  This is what a length handed across a layer MEANS (length before: 0, length after: 1), read from the code that produces it, so that the
+    wake decisions are judged against the real queue length whichever side of the boundary adds the 1."""
+    if depth > 14 or not isinstance(e, tuple): return None
+    e = strip_casts(e)
+    k = e[0]
+    if k == "pair": return len_offset(fx, e[1], depth + 1)
+    if k == "bin":
+        op = e[1].rstrip("!~")
+        a, b = strip_casts(e[2]), strip_casts(e[3])
+        if op in ("Add", "Sub") and b[0] == "const" and isinstance(b[1], int):
+            r = len_offset(fx, a, depth + 1)
+            return None if r is None else r + (b[1] if op == "Add" else -b[1])
+        if op == "Add" and a[0] == "const" and isinstance(a[1], int):
+            r = len_offset(fx, b, depth + 1)
+            return None if r is None else r + a[1]
+        if op == "Sub" and e[1].endswith("~"): return 0
+        return None
+    if k == "call" and "NonZero" in e[1] and e[1].split("::")[-1] in ("get", "new_unchecked") and len(e[2]) == 1: return len_offset(fx, e[2][0], depth + 1)
+    if k == "call" and e[1].split("::")[-1] in ("unwrap", "unwrap_unchecked", "expect") and e[2]:
+        return len_offset(fx, ("field", "0", ("variant", "Some", e[2][0])), depth + 1)
+    path = []; x = e
+    while x[0] in ("field", "variant"):
+        path.append(x); x = strip_casts(x[2])
+    if x[0] == "call" and path:
+        key = (x[1], tuple((q[0], str(q[1])) for q in path))
+        if key in _OFF_MEMO: return _OFF_MEMO[key]
+        _OFF_MEMO[key] = None
+        g = fx.fn_opt(x[1])
+        if g is None and "NonZero" in x[1] and x[1].split("::")[-1] == "new" and len(x[2]) == 1:
+            # NonZeroU32::new(X) as Some .0
+            return len_offset(fx, x[2][0], depth + 1)
+        if g is None: return None
+        gd = D.Dag(Body(g))
+        alts = _alts(gd.local(0))
+        for step in reversed(path):
+            nxt = []
+            for a in alts:
+                if step[0] == "variant":
+                    if a[0] == "adt":
+                        if a[1] == step[1]: nxt.append(a)
+                    elif a[0] == "call" and "NonZero" in a[1] and a[1].split("::")[-1] == "new" and step[1] == "Some": nxt.append(("adt", "Some", (a[2][0],), "std::option::Option"))
+                    else: nxt.append(("variant", step[1], a))
+                else:
+                    i = str(step[1])
+                    if a[0] in ("adt", "tuple") and i.isdigit() and int(i) < len(a[1] if a[0] == "tuple" else a[2]):
+                        nxt += _alts((a[1] if a[0] == "tuple" else a[2])[int(i)])
+                    else: nxt.append(("field", step[1], a))
+            alts = nxt
+        ks = {len_offset(fx, a, depth + 1) for a in alts}
+        r = ks.pop() if len(ks) == 1 else None
+        _OFF_MEMO[key] = r
+        return r
+    return None
+
+
+def callback_len_offset(fx, callee_key, param_name_part="report_len"):
+    """offset of the length a container function hands to its `report_len_after_*` callback"""
+    g = fx.fn_opt(callee_key)
+    if g is None: return None
+    gb = Body(g); gd = D.Dag(gb)
+    ks = set()
+    for (b, c) in gb.calls:
+        if c.get("f") in ("std::ops::FnOnce::call_once", "std::ops::Fn::call", "std::ops::FnMut::call_mut") and len(c["args"]) > 1 and param_name_part in show(gd.expr(c["args"][0])):
+            a_ = strip_casts(gd.expr(c["args"][1]))
+            a_ = a_[1][0] if a_[0] == "tuple" and a_[1] else a_
+            ks.add(len_offset(fx, a_))
+    return ks.pop() if len(ks) == 1 else None
+
+
 def length_source(fx, s, atom):
+    src, trans = _length_source(fx, s, atom)
+    if src in ("reserve", "publish", "post"):
+        # what the sample means (length before / after) is read from the code that produced it, not assumed from the producer's name
+        k = None
+        if atom[0] == "param" and "::{closure#" in s.key:
+            parent = s.key.rsplit("::{closure#", 1)[0]
+            pb = Body(fx.fn(parent)); pd = D.Dag(pb)
+            for (b, c) in pb.calls:
+                if not any(pd.expr(a) == ("closure", s.key) for a in c["args"]): continue
+                if c.get("fname") == "publish":
+                    k = callback_len_offset(fx, c.get("resolved") or c.get("f"))
+                elif c.get("fname") in ("map", "map_or", "and_then", "map_or_else", "is_some_and", "is_ok_and", "is_none_or", "inspect") and c["args"]:
+                    k = len_offset(fx, ("field", "0", ("variant", "Some", pd.expr(c["args"][0]))))
+        else:
+            k = len_offset(fx, atom)
+        if k is not None: trans = k
+    return (src, trans)
+
+
+def _length_source(fx, s, atom):
     """(kind, transition value): 'reserve' (length before, 0), 'publish' (length after, 1), 'post' (sampled after the publication CAS, 1), 'presend' (0)"""
     txt = show(atom)
     if "leak_slot_internal" in txt: return ("reserve", 0)
@@ -426,6 +528,8 @@ def check_reported_lengths(ctx):
                     e = strip_casts(e)
                     while e[0] == "tuple" and len(e[1]) == 1: e = strip_casts(e[1][0])
                     ok = e[0] == "bin" and e[1].rstrip("!~") == "Add" and ((strip_casts(e[3]) == ("const", 1) and mentions(e[2], "leak_slot_internal")) or (strip_casts(e[2]) == ("const", 1) and mentions(e[3], "leak_slot_internal")))
+                    off = len_offset(fx, e) if mentions(e, "leak_slot_internal") else None
+                    if off is not None: ok = off == 1      # the +1 may be added on either side of the reservation's answer -- but exactly once
                     n += 1
                     ctx.ob("R04.8", f"{k}|reports-length-before-plus-one", ok, body.loc(b), f"reports `{show(e)[:90]}`; required: the reservation's length-before + 1")
     ctx.ob("R04.8", "reported-lengths|instances", n >= 4, "", f"{n} reported lengths", nontrivial=False)
@@ -584,6 +688,13 @@ def _classify(ctx, fx, s, tag):
     desc = f"`{' && '.join(('' if p else '!') + '(' + _short(show(l)) + ' ' + o + ' ' + _short(show(r)) + ')' for (o, l, r, p) in s.conds if not sentinel_test(l, r)) or 'always'}` -> wake({_short(show(s.target))})"
     if kind == "log":
         ok = listener and not at and (s.in_loop or s.target == ALL)
+        # ... of every listener that exists once the event is visible: the live list / count the sweep walks is read AFTER the publication (a listener that subscribes
+        # while the send is in flight sees nothing, parks, and -- not being in a snapshot taken before the publication -- is never woken)
+        pubs_ = {b for (b, c) in body.calls if c.get("fname") in PUB}
+        reads_ = [b for (b, c) in body.calls if c.get("fname") in ("used_streams", "running_streams_count")]
+        stale = [rb for rb in reads_ if pubs_ and not any(body.dominates(pb, rb) for pb in pubs_)]
+        if ok and stale:
+            return ("U", "the listener set the sweep wakes is sampled BEFORE the publication: a listener subscribing in between is parked for good", desc)
         return ("A" if ok else "U", "unconditional wake of every live listener after publication" if ok else "log channel wake is not the unconditional sweep", desc)
     if not at and s.target == ALL and not [c for c in s.conds if not sentinel_test(c[1], c[2])]:
         _sweep_shape(ctx, fx)
@@ -604,7 +715,7 @@ def _classify(ctx, fx, s, tag):
             v = ev(("bin", op, l, r), {L: Lv}, m)
             if bool(v) != pol: return False
         return True
-    lo_len = 1 if src in ("publish", "post") else 0      # publication answers are NonZeroU32 lengths-after
+    lo_len = trans if src in ("reserve", "publish", "post") else 0      # a length-after sample (publication answers are NonZeroU32) is never below 1
     try:
         if not listener:
             bad = None
